@@ -970,7 +970,6 @@ func singleFuncLitDef(fn *ast.FuncDecl, name string) (*ast.FuncLit, *ast.AssignS
 	return lit, def
 }
 
-
 // paramReceiving: at call, the plain identifier name is passed as an argument to a named, non-function parameter of
 // helper d that the helper never assigns, increments or takes the address of; returns that parameter's name.
 func paramReceiving(d *ast.FuncDecl, call *ast.CallExpr, name string) string {
@@ -1034,7 +1033,6 @@ func paramReceiving(d *ast.FuncDecl, call *ast.CallExpr, name string) string {
 	return pn
 }
 
-
 // loadInstances type-checks the package (no SSA) and returns, for every identifier that denotes an instantiated generic
 // function, its type arguments as source text valid inside the package; keyed by "file:offset".
 func loadInstances(dir string, overlay map[string][]byte) map[string][]string {
@@ -1059,7 +1057,6 @@ func loadInstances(dir string, overlay map[string][]byte) map[string][]string {
 	}
 	return out
 }
-
 
 // plainName: an identifier or a dotted chain of identifiers (needs no parentheses in call position).
 func plainName(s string) bool {
